@@ -211,6 +211,7 @@ fn row_sweep<F: FloatT>(rep: &mut Report, ctx: &Ctx, per_row: u64) {
                     plus: false,
                     upper_exp: false,
                     bare_point: false,
+                    lower_digits: false,
                 };
                 let text = gen::render_canon(&c2, Radices::DECIMAL, b'.', b'e', &lay);
                 let case = Case { text, class: "row-sweep", junk: b' ' };
